@@ -259,6 +259,7 @@ func init() {
 		return r
 	})
 	reg(vrtPath+".Outcome", func(m *Machine, fr *frame, args []Value) Value { return nil })
+	reg(vrtPath+".Cleanup", func(m *Machine, fr *frame, args []Value) Value { return nil })
 	// Crashes(f): runs f in a fresh goroutine context; the engine reports crash if it panics unrecovered.
 }
 
